@@ -197,7 +197,7 @@ class Run:
 
 # ---------------------------------------------------------------- history suites
 
-def hist_suite(run, name, harness_args, nontrivial_rule, known=None, use_driver=True, timeout=3000, binary=None, env=None, seed=None):
+def hist_suite(run, name, harness_args, nontrivial_rule, known=None, use_driver=True, timeout=3000, binary=None, env=None, seed=None, only=None):
     """Runs one harness suite of histories; absorbs coverage; classifies failures.
     known: optional function (HistResult, idx, text) -> finding id or None, attributing a
     spec failure to a listed known finding."""
@@ -235,6 +235,9 @@ def hist_suite(run, name, harness_args, nontrivial_rule, known=None, use_driver=
     def hstart(i):
         return starts[i] if 0 <= i < len(starts) else 0
     fails = sorted([(i, "oracle", t) for i, t in r.spec] + [(i, "harness", t) for i, t in r.hspec])
+    if only:
+        # this suite judges one aspect only (e.g. "every Open succeeds"); the others are another property's business
+        fails = [f for f in fails if only(f[1], f[2])]
     for i, src, text in fails:
         h = hstart(i)
         if h in tainted:
@@ -390,6 +393,7 @@ def check_C04(run):
 def check_C05(run):
     check_hist_generic(run, [("list", "list", 500, 10000, RULE_HIST + "; profile list: RPush/LPush/pops/peeks/LSize/LRange/LRem/"
                               "LSet/LTrim with indexes -7..7 and +-2^63, values with '|' and empty"),
+                             ("listidx", "listidx", 100, 2000, RULE_HIST + "; profile listidx: several LSet / LTrim per transaction"),
                              ("dslist", "dslist", 300, 6000, "the exported ds/list type driven directly (no transaction layer): "
                               "random call sequences compared with ListDS.v")])
 
@@ -430,6 +434,8 @@ def check_C13(run):
                               "transaction wrote): per-call results and final state = serial execution on L0"),
                              ("bigtx", "bigtx", 150, 3000, RULE_HIST + "; profile bigtx: write transactions of 8-22 calls (up to ~40 "
                               "records) interleaving buckets and structures with order-sensitive blind writes"),
+                             ("listidx", "listidx", 150, 3000, RULE_HIST + "; profile listidx: transactions holding several LSet / "
+                              "LTrim calls on different lists (record keys 'key|index' built per call)"),
                              ("raw", "raw", 200, 4000, RULE_HIST + "; profile raw: transactions that read/pop/validate structures "
                               "they already modified; impl = model must hold; spec mismatches are attributed to known finding F21 "
                               "only when the failing call reads a structure written earlier in the same transaction")],
@@ -458,19 +464,39 @@ def crash_cov(run, r):
                 pass
 
 
+RULE_SPARSE_CRASH = ("the same enumeration in HintBPTSparseIdxMode: a key/value workload in one bucket (30 keys, 14 transactions, "
+                     "segments of 300-600 bytes, so several segments are sealed with on-disk index trees), every mutation point and torn "
+                     "prefix; images taken inside a Commit that rewrites index or bucket-meta files are known finding F32 (counted, not "
+                     "failed); every other image must open and show the state before or after the in-flight transaction")
+
+
+def sparse_crash(run, suite):
+    n = 2 if run.tier == "quick" else 40
+    r = hist_suite(run, suite, ["hist", "-n", n, "-x", suite], RULE_SPARSE_CRASH, use_driver=False)
+    crash_cov(run, r)
+
+
 def check_C09(run):
     n = 12 if run.tier == "quick" else 250
     r = hist_suite(run, "crash", ["hist", "-n", n, "-x", "crash"], RULE_CRASH, use_driver=False)
     crash_cov(run, r)
+    sparse_crash(run, "crashsparse")
     check_hist_generic(run, [("reopen", "reopen", 150, 3000, RULE_HIST + "; profile reopen (exact-fill entries, no-op operations, "
                               "reads of missing buckets; every Close/Open must succeed)"),
                              ("abort", "abort", 100, 2000, RULE_HIST + "; profile abort (failed and rolled-back transactions before reopen)")])
+    n = 150 if run.tier == "quick" else 3000
+    hist_suite(run, "rawreopen", ["hist", "-n", n, "-x", "rawreopen"],
+               RULE_HIST + "; profile rawreopen: transactions that pop / remove / trim structures they already modified (their records "
+               "are no-ops or errors when applied), then Close and Open; judged here: every Open succeeds and nothing panics "
+               "(the results of such transactions are C13's known finding F21)",
+               only=lambda src, text: src == "harness" and ("open-failed" in text or "panic" in text or "close failed" in text))
 
 
 def check_C10(run):
     n = 14 if run.tier == "quick" else 300
     r = hist_suite(run, "crash", ["hist", "-n", n, "-x", "crash"], RULE_CRASH, use_driver=False)
     crash_cov(run, r)
+    sparse_crash(run, "crashsparse")
 
 
 def check_C11(run):
@@ -480,6 +506,15 @@ def check_C11(run):
                    "write dropped, kept or torn) and the recorded trace is checked against the protocol predicate of TraceFacts "
                    "(every data-file write followed by a sync of that file before the next write)", use_driver=False)
     crash_cov(run, r)
+    n = 8 if run.tier == "quick" else 160
+    r2 = hist_suite(run, "mergepower", ["hist", "-n", n, "-x", "mergepower"],
+                    "POWER LOSS around Merge (SyncEnable=true): a workload over key/value data, sets and sorted sets followed by Merge "
+                    "with every file mutation recorded; for every mutation point inside Merge the DURABLE image (files at their last "
+                    "sync, removals durable) is rebuilt, opened and observed: every transaction committed before Merge must be "
+                    "present (differences of class F30 — an empty structure answers 'not found' — are Merge's known finding)",
+                    use_driver=False)
+    crash_cov(run, r2)
+    sparse_crash(run, "powersparse")
 
 
 def check_C19(run):
